@@ -469,6 +469,7 @@ class C17:
                    "load": 10, "setc": 4, "refresh": 0, "cleanup": 0, "verify": 0})
         ops = []
         freeze = []
+        hg.eg.no_eqne = True       # load/copy_expr_from attempts go through printed text (KF-2)
 
         def attempts():
             keep = hg.cfg["weights"]
@@ -830,6 +831,9 @@ class C11:
         cfg["g_restricted"] = rc.random() < 0.85
         if rc.random() < 0.5:
             cfg["expr_depth"] = rc.choice([3, 4])
+        # population split: deferred equality nodes (KF-2) only in ~12 % of the runs
+        cfg["eqne_in_text"] = rc.random() < 0.12
+        cfg["no_eqne"] = not cfg["eqne_in_text"]
         spec = gen_spec(rng_for(ctx.seed, "C11", run, "spec"), cfg)
         hg = HistoryGen(rng_for(ctx.seed, "C11", run, "ops"), cfg, spec)
         ops = hg.history()
@@ -1002,8 +1006,231 @@ class C11:
                         break
                     raise
         except Violation as v:
+            if cfg.get("eqne_in_text") and (any(has_eqne(a) for a in ex.model.defs.values()) or
+                                            (i >= 0 and any(has_eqne(x) for x in _asts_of(case["ops"][i])))):
+                # a deferred equality node is among the definitions: its printed form is the structural `==`
+                v.cls = v.cls + ".eqne"
+                v.attrs["eqne"] = True
             return _outcome(ex, v, i, restarts > 0)
         return _outcome(ex, None, None, restarts > 0, None, digest(sorted(ex.stats.items())))
 
 
+def has_eqne(ast):
+    if not isinstance(ast, tuple) or not ast:
+        return False
+    if ast[0] == "bin":
+        return ast[1] in ("==", "!=") or has_eqne(ast[2]) or has_eqne(ast[3])
+    if ast[0] in ("un", "bi"):
+        return has_eqne(ast[2])
+    if ast[0] == "call":
+        return any(has_eqne(a) for a in ast[2]) or any(has_eqne(a) for _, a in ast[3])
+    return False
+
+
+def _asts_of(op):
+    if op[0] == "sete":
+        return [op[2]]
+    if op[0] == "inpl":
+        return [op[3]]
+    if op[0] in ("load", "copyfrom"):
+        return [a for _, a in op[1]]
+    if op[0] == "copyexpr":
+        return [a for _, a in op[4]]
+    return []
+
+
 DRIVERS["C11"] = C11
+
+
+# ---------------------------------------------------------------------------
+# C13: generated setter functions vs assigning through the manager (twin execution)
+# ---------------------------------------------------------------------------
+class C13:
+    prop = "C13"
+
+    @staticmethod
+    def generate(ctx, run):
+        from .gen import gen_value
+        rc = rng_for(ctx.seed, "C13", run, "cfg")
+        wo = {"regf": 0, "unregf": 0, "regk": 0, "unregk": 0, "sete": 55, "inpl": 8, "setv": 15, "unreg": 3}
+        cfg = swarm_config(rc, ctx.tier, weights_over=wo, g_restricted=True)
+        spec = gen_spec(rng_for(ctx.seed, "C13", run, "spec"), cfg)
+        hg = HistoryGen(rng_for(ctx.seed, "C13", run, "ops"), cfg, spec)
+        rm = rng_for(ctx.seed, "C13", run, "markers")
+        ops = []
+        n_mark = rm.randint(1, 4)
+        marks = sorted(rm.randint(3, max(3, cfg["n_ops"])) for _ in range(n_mark))
+        for k in range(cfg["n_ops"] + 1):
+            while marks and marks[0] <= k:
+                marks.pop(0)
+                m = hg.model
+                leaves = [l for l in spec.leaves if not m.is_derived(l)]
+                if not leaves or not m.defs:
+                    continue
+                # bias: arguments that something depends on
+                used = set()
+                for a in m.defs.values():
+                    used.update(m.static_reads_of_ast(a))
+                good = [l for l in leaves if l in used] or leaves
+                n = rm.randint(1, min(3, len(leaves)))
+                args = []
+                for _ in range(n):
+                    p = rm.choice(good if rm.random() < 0.8 else leaves)
+                    if p not in args:
+                        args.append(p)
+                vals = tuple(gen_value(rm, spec.leaf_type[p]) for p in args)
+                mk = ("genfun", tuple(args), vals)
+                # keep the generator's model in step: the call is equivalent to sequential assignments
+                ok = True
+                mm = m.clone()
+                for p, v in zip(args, vals):
+                    try:
+                        model_step(mm, ("setv", p, v, "mgr"), True)
+                    except ModelReject:
+                        ok = False
+                        break
+                if ok:
+                    m.adopt(mm)
+                    ops.append(mk)
+            if k < cfg["n_ops"]:
+                ops.extend(hg.history(n_ops=1))
+        return {"cfg": cfg, "spec": spec.to_json(), "ops": ops}
+
+    @staticmethod
+    def execute(ctx, case):
+        prop = "C13"
+        xd = ctx.xd
+        spec = Spec.from_json(case["spec"])
+        cfg = case["cfg"]
+        salt = cfg["salt"]
+        ex = Exec(xd, spec, True, salt)
+        T = World(spec, xd, salt)          # the twin: same history, assignments always go through the manager
+        calls = 0
+        i = -1
+        try:
+            for i, op in enumerate(case["ops"]):
+                S = ex.world
+                if op[0] != "genfun":
+                    st = ex.step(op)
+                    if st is None:
+                        continue
+                    tr2, exc2 = run_traced(lambda: T.apply(op))
+                    if st.exc is not None or exc2 is not None:
+                        raise Violation(prop + ".exception", "op %d (%s) raised %s" % (i, op[0], st.exc or exc2))
+                    try:
+                        ex.check_contents(st.info.values, "op %d" % i, st.info, prop)
+                    except Violation:
+                        ex.count("stopped_on_content_mismatch")     # C01's business
+                        break
+                    continue
+                _, args, vals = op
+                if any(ex.model.is_derived(p) for p in args) or len(set(args)) != len(args):
+                    ex.count("skipped")
+                    continue
+                where = "gen_fun call %d before op %d, arguments %s" % (calls, i, ", ".join(path_str(p) for p in args))
+                # ---- model: sequential assignments ------------------------------------------------
+                m2 = ex.model.clone()
+                trig_all = set()
+                infos = []
+                try:
+                    for p, v in zip(args, vals):
+                        inf = model_step(m2, ("setv", p, v, "mgr"), True)
+                        infos.append(inf)
+                        trig_all |= inf.trig
+                except ModelReject:
+                    ex.count("skipped")
+                    continue
+                values = infos[-1].values
+                if any(isinstance(v, float) and v != v for v in values.values()):
+                    ex.count("skipped_zero_division_proviso")
+                    continue
+                names = ["x%d" % k for k in range(len(args))]
+                kwargs = {n: S.ref(p) for n, p in zip(names, args)}
+                fname = "fn" + "".join(ch for ch in salt if ch.isalnum())
+                # ---- the source ----------------------------------------------------------------------
+                tr, exc = run_traced(lambda: S.mgr.mk_fun(fname, **kwargs))
+                if exc is not None:
+                    raise Violation(prop + ".mk_fun_raises", "%s: mk_fun raised %s: %s" % (where, type(exc).__name__, exc))
+                src = S.mgr.mk_fun(fname, **kwargs)
+                lines = src.split("\n")
+                head = lines[0]
+                body = [l.strip() for l in lines[1:]]
+                exp_assign = ["%s = %s" % (S.ref(p), n) for n, p in zip(names, args)]
+                if body[:len(args)] != exp_assign:
+                    raise Violation(prop + ".source_args", "%s: the source does not start with the argument assignments: %s" % (where, body[:len(args)]))
+                # expected triggered expression tasks (model): everything downstream of the arguments or their containers
+                decl = ex.model.tasks_decl()
+                edges = ex.model.g_edges(decl)
+                start = set()
+                for p in args:
+                    start.update(ex.model.pfx(p))
+                trig, _, _ = ex.model.trigger(start, decl, edges)
+                exp_lines = {"%s = %s" % (S.ref(t[1]), S.ref(t[1])._expr): t for t in trig}
+                got = body[len(args):]
+                seen = {}
+                for pos, l in enumerate(got):
+                    if l in seen:
+                        raise Violation(prop + ".source_twice", "%s: task `%s` is listed twice" % (where, l[:120]))
+                    seen[l] = pos
+                # tasks whose value really depends on an argument (exact data flow) must be listed; tasks that the
+                # manager would also re-run only because they read a sibling below the same container may be listed
+                must = set()
+                changed = True
+                argset = set(args)
+                while changed:
+                    changed = False
+                    for loc in ex.model.defs:
+                        if loc in must:
+                            continue
+                        rd = ex.model.static_reads(loc)
+                        if any((r in argset) or (r in must) for r in rd):
+                            must.add(loc)
+                            changed = True
+                missing = [l for l, t in exp_lines.items() if l not in seen and t[1] in must]
+                extra = [l for l in seen if l not in exp_lines]
+                if extra:
+                    raise Violation(prop + ".source_extra", "%s: the source lists `%s`, which does not depend on the arguments" % (where, extra[0][:160]))
+                if missing:
+                    raise Violation(prop + ".source_missing", "%s: triggered task `%s` is missing from the source" % (where, missing[0][:160]))
+                for l, t in exp_lines.items():
+                    if l not in seen:
+                        continue
+                    for u in edges[t]:
+                        if u in trig and u != t:
+                            lu = [x for x, tt in exp_lines.items() if tt == u][0]
+                            if lu in seen and seen[l] > seen[lu]:
+                                raise Violation(prop + ".source_order", "%s: `%s` is listed before its producer `%s`" % (where, lu[:100], l[:100]))
+                # ---- the call vs the twin ------------------------------------------------------------
+                tr, exc = run_traced(lambda: S.mgr.gen_fun(fname, **kwargs))
+                if exc is not None:
+                    raise Violation(prop + ".gen_fun_raises", "%s: gen_fun raised %s: %s" % (where, type(exc).__name__, exc))
+                f = S.mgr.gen_fun(fname, **kwargs)
+                calls += 1
+                ex.count("gen_fun_calls")
+                ex.count("tasks_in_generated_functions", len(got))
+                tr, exc = run_traced(lambda: f(*vals))
+                if isinstance(exc, SimStall):
+                    raise exc
+                if isinstance(exc, ZeroDivisionError):
+                    ex.count("stopped_on_zero_division_proviso")
+                    break
+                if exc is not None:
+                    raise Violation(prop + ".call_raises", "%s: calling the generated function raised %s: %s" % (where, type(exc).__name__, exc))
+                for p, v in zip(args, vals):
+                    tr2, exc2 = run_traced(lambda: T.apply(("setv", p, v, "mgr")))
+                    if exc2 is not None:
+                        raise Violation(prop + ".twin_raises", "%s: assigning through the manager raised %s" % (where, exc2))
+                ex.model.adopt(m2)
+                c1, c2 = S.contents(), T.contents()
+                for loc in spec.leaves:
+                    if not same(c1[loc], c2[loc]):
+                        raise Violation(prop + ".differs", "%s: %s holds %r after the generated function, %r after assigning through the manager"
+                                        % (where, path_str(loc), c1[loc], c2[loc]))
+                    if not same(c1[loc], values[loc]):
+                        raise Violation(prop + ".model", "%s: %s holds %r, the definitions give %r" % (where, path_str(loc), c1[loc], values[loc]))
+        except Violation as v:
+            return _outcome(ex, v, i, calls > 0)
+        return _outcome(ex, None, None, calls > 0, None, digest(sorted(ex.stats.items())))
+
+
+DRIVERS["C13"] = C13
